@@ -502,6 +502,23 @@ func c17SessionSubstitutes(r *Run) {
 			}
 		}
 		r.Check(ok, "substitute", "session.Create: a created directory is opened through openLocked (Readdir)", cr.Pos(), "a created directory is left with the file returned by the file system instead of a Readdir")
+		// … and what is opened is the entry just created, not the parent
+		for _, c := range findCalls(cr, "p9p.openLocked") {
+			okEnt := false
+			if len(c.Call.Args) >= 2 {
+				if a, isA := c.Call.Args[1].(*ssa.Alloc); isA {
+					if flds, _, okF := allocFields(a); okF {
+						if ex, isEx := stripConv(flds["Ent"]).(*ssa.Extract); isEx && ex.Index == 0 {
+							if cc, isC := ex.Tuple.(*ssa.Call); isC && cc.Call.IsInvoke() && cc.Call.Method.Name() == "Create" {
+								okEnt = true
+							}
+						}
+					}
+				}
+			}
+			r.Check(okEnt, "substitute", "session.Create: the directory reader is opened on the entry Create returned", c.Pos(),
+				"the Readdir of a freshly created directory is built over another entry (e.g. the parent): reads on the new fid list the wrong directory")
+		}
 	}
 }
 
@@ -533,6 +550,29 @@ func c17ClientNext(r *Run) {
 		}
 	}
 	r.Check(okArgs, "client-next", "openDir.Next: reads into its buffer at the running offset", rdc.Pos(), "the directory is not read at the running offset")
+	// each open directory reads into a buffer of its own
+	nBuf := 0
+	for _, fn := range p.FuncsOfPkg("p9p") {
+		eachInstr(fn, func(in ssa.Instruction) {
+			a, ok := in.(*ssa.Alloc)
+			if !ok || !isP9P(a.Type(), "openDir") {
+				return
+			}
+			flds, _, ok := allocFields(a)
+			if !ok {
+				return
+			}
+			b, has := flds["buf"]
+			if !has {
+				return
+			}
+			nBuf++
+			_, fresh := b.(*ssa.MakeSlice)
+			r.Check(fresh, "client-next", fnName(fn)+": an open directory gets a chunk buffer made for it", in.Pos(),
+				"open directories share one chunk buffer: a listing decodes bytes another listing's read put there (entries of the wrong directory, own entries lost)")
+		})
+	}
+	r.Floor("client-next", nBuf, 1, "openDir constructions")
 	n := resultN(rdc, 0)
 	okAdv := false
 	eachInstr(nx, func(in ssa.Instruction) {
